@@ -280,6 +280,40 @@ fn wsvariant(c: &Value) -> Value {
     r.unwrap_or_else(|e| json!({"status":"panic","detail":panic_msg(e)}))
 }
 
+/// C06: print a literal / quoted identifier node holding a payload, then tokenize the text.
+fn literal(c: &Value) -> Value {
+    use sqlparser::ast::{DollarQuotedString, Ident, Value as V};
+    let d = dialect_by_name(c["dialect"].as_str().unwrap());
+    let p = c["payload"].as_str().unwrap().to_string();
+    let kind = c["kind"].as_str().unwrap();
+    let r = std::panic::catch_unwind(std::panic::AssertUnwindSafe(|| {
+        let printed = match kind {
+            "KSingle" => V::SingleQuotedString(p.clone()).to_string(),
+            "KDouble" => V::DoubleQuotedString(p.clone()).to_string(),
+            "KTripleSingle" => V::TripleSingleQuotedString(p.clone()).to_string(),
+            "KTripleDouble" => V::TripleDoubleQuotedString(p.clone()).to_string(),
+            "KByteSingle" => V::SingleQuotedByteStringLiteral(p.clone()).to_string(),
+            "KByteDouble" => V::DoubleQuotedByteStringLiteral(p.clone()).to_string(),
+            "KTripleByteSingle" => V::TripleSingleQuotedByteStringLiteral(p.clone()).to_string(),
+            "KTripleByteDouble" => V::TripleDoubleQuotedByteStringLiteral(p.clone()).to_string(),
+            "KRawSingle" => V::SingleQuotedRawStringLiteral(p.clone()).to_string(),
+            "KRawDouble" => V::DoubleQuotedRawStringLiteral(p.clone()).to_string(),
+            "KTripleRawSingle" => V::TripleSingleQuotedRawStringLiteral(p.clone()).to_string(),
+            "KTripleRawDouble" => V::TripleDoubleQuotedRawStringLiteral(p.clone()).to_string(),
+            "KNational" => V::NationalStringLiteral(p.clone()).to_string(),
+            "KEscaped" => V::EscapedStringLiteral(p.clone()).to_string(),
+            "KUnicode" => V::UnicodeStringLiteral(p.clone()).to_string(),
+            "KHex" => V::HexStringLiteral(p.clone()).to_string(),
+            "Dollar" => V::DollarQuotedString(DollarQuotedString { value: p.clone(), tag: c["tag"].as_str().map(|s| s.to_string()) }).to_string(),
+            "Ident" => Ident { value: p.clone(), quote_style: c["q"].as_str().and_then(|s| s.chars().next()) }.to_string(),
+            _ => panic!("kind"),
+        };
+        let lexed = lex_outcome(d.as_ref(), &printed, true);
+        json!({"printed": printed, "lex": lexed})
+    }));
+    r.unwrap_or_else(|e| json!({"panic": panic_msg(e)}))
+}
+
 fn lex(c: &Value) -> Value {
     let d = dialect_by_name(c["dialect"].as_str().unwrap());
     lex_outcome(d.as_ref(), c["sql"].as_str().unwrap(), c["unescape"].as_bool().unwrap_or(true))
@@ -294,6 +328,7 @@ fn main() {
         "recase" => for_each_case(recase),
         "lex" => for_each_case(lex),
         "lexprop" => for_each_case(lexprop),
+        "literal" => for_each_case(literal),
         "wsvariant" => for_each_case(wsvariant),
         _ => {
             eprintln!("usage: drive make_word < cases.jsonl");
